@@ -69,7 +69,7 @@ def polymorphic(spec, t):
 def explore(ctx):
     yaml, yatiml = L.setup()
     rng = ctx.rng
-    cases = []
+    cases = LC.CaseBuffer(ctx)
     for c in LC.gen_cases(ctx, ctx.budget(350, 8000), mutate_p=0.35, prop='C03'):
         cases.append(c)
         LC.record_distribution(ctx, c)
